@@ -4,10 +4,10 @@ set -e
 cd "$(dirname "$0")"
 export CARGO_NET_OFFLINE=true
 mkdir -p work evidence replays
-[ -f harness/Cargo.lock ] || cp /repo/Cargo.lock harness/Cargo.lock
+[ -f harness/Cargo.lock ] || cp ../repo/Cargo.lock harness/Cargo.lock
 (cd harness && cargo build --offline --profile unchecked --bins 2>&1 | tail -3) &
 (cd harness && cargo build --offline --profile checked --bins 2>&1 | tail -3) &
 wait
 cd tla/mc
-timeout 600 ../../bin/tlcj /verif/tla -workers 1 -metadir ../../work/meta_setup -cleanup -config MC_BigInt.cfg MC_BigInt.tla | tail -3
+timeout 600 ../../bin/tlcj "$(cd .. && pwd)" -workers 1 -metadir ../../work/meta_setup -cleanup -config MC_BigInt.cfg MC_BigInt.tla | tail -3
 echo "setup done"
